@@ -30,6 +30,7 @@ func propC09(c *Ctx) {
 	// a piece may end without a line break wherever a line may end
 	if m := c.E1Base(); m != nil {
 		c.ruleEOFAsEOL(m, c.Analysis(stackK, false))
+		c.ruleStartState(m, "C09-START-STATE")
 	}
 	// the recursion guard must refuse only a file that is really on the stack: a set keyed by anything but the
 	// file's own name refuses legal splits (two files with one base name) or misses a cycle
@@ -38,6 +39,9 @@ func propC09(c *Ctx) {
 	c.ruleFirstByteTables("C09-KEYWORD-PREFILTER")
 	// a place is a (file, offset) pair
 	c.rulePositionNeedsFile("C09-POSITION-NEEDS-FILE")
+	// the piece that is included is the file as it is on disk: named by its path, its bytes unchanged (the line of an
+	// error in the piece is a line of that file)
+	c.ruleC14NameIsPath()
 }
 
 func (c *Ctx) ruleNoWriteAtSwitch() {
@@ -602,6 +606,7 @@ func (c *Ctx) ruleMemoCoverage(rule string) {
 func propC15(c *Ctx) {
 	c.R.Explanation = "Equality under permutation is behavioural and not decided. Decided is the phase-order necessary condition: along the straight-line pipeline scanProject -> compileCore{collectMacro, checkMacroForRecursion, processPaste, collectRules, collectTags, collectUserTypes, collectPaths, addMissed...} -> buildCatalog -> compileCatalog -> validateCatalog, for every cross-block name space (macros, enums/rules, tags, user types) the last phase that inserts names precedes the first phase that resolves names (a lookup whose miss is an error); rules are attached to a user type only while its schema is still fresh; every memo is keyed by what its value depends on; and the keyword pre-filters used to end a Description cover every keyword. Today the tag name space violates it (path tags are created while Tags are resolved): recorded finding F20."
 	c.ruleCollectBeforeUse()
+	c.ruleNoEagerCompile()
 	c.ruleRulesBeforeLoad()
 	c.ruleMemoCoverage("C15-MEMO-KEY-COVERS")
 	c.ruleFirstByteTables("C15-KEYWORD-PREFILTER")
@@ -887,6 +892,83 @@ func (c *Ctx) reachableAcrossLib(root *Fn) []*Fn {
 		}
 	}
 	return out
+}
+
+// ruleNoEagerCompile: a JSight exchange schema resolves the user types it names (allOf parents, shortcuts) in
+// catalog.UserTypes when it is compiled. That table is complete only when the phase that builds the catalog is over:
+// it is filled directive by directive, in the order of the text. A compile inside that phase finds the types declared
+// above the directive and misses the ones declared below it.
+func (c *Ctx) ruleNoEagerCompile() {
+	r := c.R
+	r.Rule("C15-NO-EAGER-COMPILE", "no function reachable from the phase that fills catalog.UserTypes (buildCatalog) calls a method of *catalog.ExchangeJSightSchema that compiles the schema (Compile itself, or a method of the type from which Compile is reachable inside package catalog): exchange schemas are compiled lazily, after every TYPE of the document has been added", 1)
+	phases := c.pipelinePhases()
+	var build *Fn
+	for _, ph := range phases {
+		if prog.FuncName(ph.Obj) == "core.(*JApiCore).buildCatalog" {
+			build = ph
+		}
+	}
+	comp := c.P.LookupFunc("catalog", "ExchangeJSightSchema.Compile")
+	if build == nil || comp == nil {
+		r.Undecided("C15-NO-EAGER-COMPILE", "anchor", "buildCatalog / ExchangeJSightSchema.Compile not found", "")
+		return
+	}
+	// methods of the type that reach Compile
+	compiling := map[*types.Func]bool{comp: true}
+	for changed := true; changed; {
+		changed = false
+		for _, f := range c.libFns() {
+			if f.Pkg.Types != comp.Pkg() || compiling[f.Obj] {
+				continue
+			}
+			sig := f.Obj.Type().(*types.Signature)
+			if sig.Recv() == nil || !strings.HasSuffix(namedType(sig.Recv().Type()), "catalog.ExchangeJSightSchema") {
+				continue
+			}
+			ast.Inspect(f.Decl.Body, func(n ast.Node) bool {
+				if _, isLit := n.(*ast.FuncLit); isLit {
+					return true
+				}
+				if call, ok := n.(*ast.CallExpr); ok {
+					if cal := callee(f.Pkg, call); cal != nil && compiling[cal] {
+						compiling[f.Obj] = true
+						changed = true
+					}
+				}
+				return true
+			})
+		}
+	}
+	n, bad := 0, 0
+	for _, f := range c.reachableAcrossLib(build) {
+		// the compiling methods themselves and what they call are not "callers in the phase"
+		if compiling[f.Obj] {
+			continue
+		}
+		n++
+		ast.Inspect(f.Decl.Body, func(nd ast.Node) bool {
+			call, ok := nd.(*ast.CallExpr)
+			if !ok {
+				return true
+			}
+			cal := callee(f.Pkg, call)
+			if cal == nil || !compiling[cal] {
+				return true
+			}
+			// a call made from inside a compiling method's own helpers is part of a later compile
+			bad++
+			r.Bad("C15-NO-EAGER-COMPILE", f.Name()+" | "+exprString(call.Fun), "an exchange schema is compiled while the catalog is still being filled: the user types it names are looked up in catalog.UserTypes, which holds only the TYPEs declared above this directive - the same document with the TYPE block moved below is rejected", c.pos(call.Pos()))
+			return true
+		})
+	}
+	if bad == 0 {
+		var names []string
+		for m := range compiling {
+			names = append(names, m.Name())
+		}
+		sort.Strings(names)
+		r.Ok("C15-NO-EAGER-COMPILE", "phase buildCatalog", fmt.Sprintf("%d functions reachable from the phase, none calls a compiling method (%s)", n, strings.Join(names, ", ")), c.pos(build.Decl.Pos()))
+	}
 }
 
 func (c *Ctx) ruleRulesBeforeLoad() {
